@@ -59,18 +59,25 @@ def run(e: Engine, rep: Report):
     rep.floor('R2.1', 4, 'reply decision sites')
 
 
-def fail_class(e: Engine, ctx: Ctx, expr) -> Optional[str]:
+def fail_classes(e: Engine, ctx: Ctx, expr):
+    """{'queue', 'relay'} subset named by the class expression of an
+    isinstance test (a tuple names several)."""
     names = expr.elts if isinstance(expr, ast.Tuple) else [expr]
-    out = None
+    out = set()
     for nm in names:
         q = e.p.resolve_expr_qname(ctx.func.module, nm)
         if not q:
             continue
         if e.p.is_subclass(q, QERR):
-            out = 'queue'
+            out.add('queue')
         elif e.p.is_subclass(q, RERR):
-            out = 'relay'
+            out.add('relay')
     return out
+
+
+def fail_class(e: Engine, ctx: Ctx, expr) -> Optional[str]:
+    fc = fail_classes(e, ctx, expr)
+    return sorted(fc)[-1] if fc else None
 
 
 def r21(e: Engine, rep: Report):
@@ -92,7 +99,8 @@ def r21(e: Engine, rep: Report):
             rep.error('anchor vanished: self.handoff(...) in %s' % where)
             continue
         rv = path_of(src[0].ast.targets[0], src[0].frame) if src else None
-        scans = [n for n in g.of_kind('iter') if isinstance(n.ast, ast.For)
+        scans = [n for n in g.of_kind('iter')
+                 if isinstance(n.ast, (ast.For, ast.comprehension))
                  and rv is not None and
                  path_of(n.ast.iter, n.frame) == rv] + direct
         anchor = src[0] if src else [
@@ -128,6 +136,64 @@ def r21(e: Engine, rep: Report):
                 if ap in bound and new not in bound:
                     bound.add(new)
                     changed = True
+        # "selection" shape: the scan picks the failing result(s) out -
+        # a helper returns the element under a positive failure test, or a
+        # comprehension keeps the failing elements - and the reply is decided
+        # from what was picked.  `selected` = the names that hold it.
+        selected = set()
+        mixtures = {}
+
+        def is_fail_test(x):
+            return isinstance(x, ast.Call) and isinstance(x.func, ast.Name) \
+                and x.func.id == 'isinstance' and len(x.args) == 2 and \
+                bool(fail_classes(e, ctx, x.args[1]))
+        for lp in scans:
+            if isinstance(lp.ast, ast.comprehension):
+                filt = any(is_fail_test(y) for c in lp.ast.ifs
+                           for y in ast.walk(c))
+                for s2 in g.of_kind('stmt'):
+                    if isinstance(s2.ast, ast.Assign) and any(
+                            any(gen is lp.ast for gen in getattr(
+                                x, 'generators', []))
+                            for x in ast.walk(s2.ast.value)) and \
+                            isinstance(s2.ast.targets[0], ast.Name):
+                        nm = path_of(s2.ast.targets[0], s2.frame)
+                        if filt:
+                            selected.add(nm)
+                        else:
+                            # one value per result, failing or not
+                            mixtures[nm] = s2
+            else:
+                fr = lp.frame
+                rets = [r for r in g.of_kind('stmt')
+                        if isinstance(r.ast, ast.Return) and r.frame is fr
+                        and any(sc.kind == 'loop' and sc.ast is lp.ast
+                                for sc in r.scopes) and
+                        r.ast.value is not None and
+                        path_of(r.ast.value, r.frame) in bound]
+                if rets and fr.call is not None and fr.parent is not None:
+                    for s2 in g.of_kind('stmt'):
+                        if isinstance(s2.ast, ast.Assign) and \
+                                s2.ast.value is fr.call and \
+                                s2.frame is fr.parent and \
+                                isinstance(s2.ast.targets[0], ast.Name):
+                            selected.add(path_of(s2.ast.targets[0],
+                                                 s2.frame))
+        changed = True
+        while changed:
+            changed = False
+            for b in g.of_kind('bind'):
+                x = b.extra
+                if x.get('is_self') or x.get('arg') is None:
+                    continue
+                root = x['arg']
+                while isinstance(root, ast.Subscript):
+                    root = root.value
+                if path_of(root, x['arg_frame']) in selected:
+                    new = '%s#%d' % (x['param'], b.frame.id)
+                    if new not in selected:
+                        selected.add(new)
+                        changed = True
         seen = set()
         fail_tests = []
         for t in g.of_kind('test'):
@@ -135,11 +201,19 @@ def r21(e: Engine, rep: Report):
             if not (isinstance(a, ast.Call) and isinstance(a.func, ast.Name)
                     and a.func.id == 'isinstance' and len(a.args) == 2):
                 continue
-            fc = fail_class(e, ctx, a.args[1])
+            fcs = fail_classes(e, ctx, a.args[1])
+            fc = '/'.join(sorted(fcs)) or None
             if fc is None:
                 continue
-            rep.evaluations += 1
             subj = a.args[0]
+            # classifying a result that the scan picked out is no decision
+            # on a fixed entry
+            sroot = subj
+            while isinstance(sroot, ast.Subscript):
+                sroot = sroot.value
+            if path_of(sroot, t.frame) in selected:
+                continue
+            rep.evaluations += 1
             fixed = [x for x in ast.walk(subj) if isinstance(x, ast.Subscript)
                      and isinstance(x.slice, ast.Constant) and
                      rv is not None and
@@ -150,7 +224,7 @@ def r21(e: Engine, rep: Report):
                 sc.kind == 'loop' and any(sc.ast is lp.ast for lp in scans)
                 for sc in t.scopes)
             if in_scan:
-                seen.add(fc)
+                seen |= fcs
                 fail_tests.append(t)
             rep.check(in_scan and not fixed, 'R2.1', where,
                       '%s failure test `%s`' % (fc, t.text(50)),
@@ -209,9 +283,48 @@ def r21(e: Engine, rep: Report):
             if n in fail_tests and label == 'T':
                 return True
             return False
+        # a list with one value per result (failing or not) is not a
+        # verdict: picking the reply out of it by order / position lets a
+        # success outrank a failure
+        for nm, defn in sorted(mixtures.items()):
+            for n in g.nodes:
+                pick = None
+                if n.kind == 'call' and e.call_name(n) in (
+                        'min', 'max', 'sorted') and any(
+                        path_of(a, n.frame) == nm for a in n.ast.args):
+                    pick = n.text(50)
+                elif n.kind in ('stmt', 'call', 'test'):
+                    for x in ast.walk(n.ast) if n.kind != 'call' else \
+                            [y for a in n.ast.args for y in ast.walk(a)]:
+                        if isinstance(x, ast.Subscript) and \
+                                isinstance(x.slice, ast.Constant) and \
+                                path_of(x.value, n.frame) == nm:
+                            pick = ast.unparse(x)
+                if pick:
+                    rep.evaluations += 1
+                    rep.bad('R2.1', where,
+                            'reply picked out of the per-result list by '
+                            '`%s`' % pick,
+                            'the reply is chosen by order / position from a '
+                            'list that holds one value for every enqueue '
+                            'result, successes included: a success value '
+                            'can be chosen although another envelope was '
+                            'not taken into custody', loc=n.loc())
         marks = [n for n in g.nodes if success_marker(n)]
         rep.evaluations += 1
         bad = None
+        if selected:
+            # decided from what the scan picked: success only where nothing
+            # was picked (`x is None` / `not xs`)
+            def none_found(mk):
+                st = fx.at(mk) or frozenset()
+                return any((p and k == sp + ' is None') or
+                           (not p and k == sp) or
+                           (not p and k == 'len(%s)' % sp)
+                           for p, k in st for sp in selected)
+            unguarded = [mk for mk in marks if not none_found(mk)]
+            if not unguarded:
+                marks = []
         for mk in marks:
             pth = dataflow.typestate_witness(
                 g, False, step, lambda n, st: n is mk and st)
@@ -243,7 +356,47 @@ def r22(e: Engine, rep: Report):
     loops = [n for n in g.of_kind('iter') if isinstance(n.ast, ast.For) and
              tv is not None and path_of(n.ast.iter, n.frame) == tv]
     rep.evaluations += 1
-    if tv is None or not loops:
+    # shape B: spawn and join inside one loop iteration
+    per_iter = []
+    for lp2 in g.of_kind('iter'):
+        if not isinstance(lp2.ast, ast.For):
+            continue
+        sp = [n for n in g.of_kind('stmt') if isinstance(n.ast, ast.Assign)
+              and isinstance(n.ast.value, ast.Call) and
+              isinstance(n.ast.value.func, ast.Attribute) and
+              n.ast.value.func.attr == 'spawn' and
+              isinstance(n.ast.targets[0], ast.Name) and any(
+                  sc.kind == 'loop' and sc.ast is lp2.ast
+                  for sc in n.scopes)]
+        for s2 in sp:
+            per_iter.append((lp2, s2, path_of(s2.ast.targets[0], s2.frame)))
+    if per_iter and not loops:
+        for lp2, s2, gv in per_iter:
+            counts = common.per_iteration_counts(
+                g, lp2, lambda n: 1 if n.kind == 'call' and
+                e.call_name(n) in ('join', 'get') and
+                path_of(n.ast.func.value, n.frame) == gv else 0)
+            rep.check(bool(counts) and 0 not in counts, 'R2.2', where,
+                      'every spawned greenlet is joined',
+                      'an iteration that spawns a write can complete '
+                      'without join()/get() on it: its result is read '
+                      'before the write finished', loc=lp2.loc(),
+                      reason='join()/get() on the spawned greenlet in the '
+                      'same iteration')
+            rets = [n for n in g.of_kind('stmt')
+                    if isinstance(n.ast, ast.Return)]
+            early = [r for r in rets
+                     if common_reach_without_done(g, r, lp2)]
+            brk = [n for n in g.of_kind('stmt')
+                   if isinstance(n.ast, ast.Break) and any(
+                       sc.kind == 'loop' and sc.ast is lp2.ast
+                       for sc in n.scopes)]
+            rep.check(not early and not brk and bool(rets), 'R2.2', where,
+                      'returns only after the join loop completed',
+                      '_pool_imap can return before every write was '
+                      'spawned and joined', loc=lp2.loc(),
+                      reason='loop exhausted before return')
+    elif tv is None or not loops:
         rep.bad('R2.2', where, 'spawned writes are waited for',
                 '_pool_imap no longer iterates over the greenlets it '
                 'spawned: enqueue returns before the writes finished',
@@ -280,12 +433,18 @@ def r22(e: Engine, rep: Report):
                   loc=brk[0].loc() if brk else lp.loc())
     # enqueue
     ctx = e.method_ctx(QUEUE, 'enqueue')
-    g = e.build(ctx, raises=lambda b, n, r: set())
+    g = e.build(ctx, raises=lambda b, n, r: set(),
+                inline=e.inline_same_self(
+                    deny=['_pool_imap', '_pool_spawn', '_pool_run',
+                          '_run_policies', '_attempt']), max_depth=3)
     where = ctx.func.qname
     rep.functions.add(where)
-    writes = [n for n in g.nodes if n.kind == 'call' and any(
-        ast.unparse(a) == 'self.store.write' for a in n.ast.args) or (
-        n.kind == 'call' and ast.unparse(n.ast.func) == 'self.store.write')]
+
+    def is_write(x, fr):
+        return canon(x, fr) == 'self.store.write'
+    writes = [n for n in g.nodes if n.kind == 'call' and (
+        any(is_write(a, n.frame) for a in n.ast.args) or
+        is_write(n.ast.func, n.frame))]
     rep.evaluations += 1
     if not writes:
         rep.error('anchor vanished: store.write in Queue.enqueue')
@@ -299,16 +458,20 @@ def r22(e: Engine, rep: Report):
     # the returned list is the unfiltered zip of envelopes and write results
     for r in g.of_kind('stmt'):
         if not (isinstance(r.ast, ast.Return) and
-                isinstance(r.ast.value, ast.Name)):
+                isinstance(r.ast.value, ast.Name) and
+                r.frame is g.entry.frame):
             continue
         rv = path_of(r.ast.value, r.frame)
         defs = [s for s in g.of_kind('stmt') if isinstance(s.ast, ast.Assign)
+                and s.frame is g.entry.frame
                 and path_of(s.ast.targets[0], s.frame) == rv]
         rep.evaluations += 1
-        ok = len(defs) == 1 and 'zip(' in ast.unparse(defs[0].ast.value) and \
+        val = common.value_of(g, defs[0].ast.value, defs[0].frame)[0] \
+            if len(defs) == 1 else None
+        ok = len(defs) == 1 and 'zip(' in ast.unparse(val) and \
             not any(isinstance(x, (ast.ListComp, ast.GeneratorExp)) and
                     any(g2.ifs for g2 in x.generators)
-                    for x in ast.walk(defs[0].ast.value))
+                    for x in ast.walk(val))
         rep.check(ok, 'R2.2', where,
                   'enqueue returns one result per envelope, failures '
                   'included',
@@ -320,7 +483,8 @@ def r22(e: Engine, rep: Report):
     before = dataflow.must_events_before(
         g, lambda n: ['write'] if n in writes else [])
     for r in g.of_kind('stmt'):
-        if isinstance(r.ast, ast.Return) and before.get(r.id) is not None:
+        if isinstance(r.ast, ast.Return) and before.get(r.id) is not None \
+                and r.frame is g.entry.frame:
             rep.evaluations += 1
             rep.check('write' in before.get(r.id), 'R2.2', where,
                       'enqueue returns after the writes',
@@ -367,7 +531,8 @@ def r23(e: Engine, rep: Report):
 
 def r24(e: Engine, rep: Report):
     ctx = e.method_ctx('slimta.queue.proxy.ProxyQueue', 'enqueue')
-    g = e.build(ctx, raises=lambda b, n, r: set())
+    g = e.build(ctx, raises=lambda b, n, r: set(),
+                inline=e.inline_same_self(), max_depth=3)
     where = ctx.func.qname
     rep.functions.add(where)
     calls = [n for n in g.nodes if n.kind == 'call' and
@@ -400,7 +565,8 @@ def r24(e: Engine, rep: Report):
                         if isinstance(x, (ast.Name, ast.Attribute))):
                     dep.add(t)
                     changed = True
-    scans = [n for n in g.of_kind('iter') if isinstance(n.ast, ast.For) and
+    scans = [n for n in g.of_kind('iter')
+             if isinstance(n.ast, (ast.For, ast.comprehension)) and
              any(path_of(x, n.frame) in dep for x in ast.walk(n.ast.iter)
                  if isinstance(x, (ast.Name, ast.Attribute)))]
     bound = set()
@@ -420,8 +586,52 @@ def r24(e: Engine, rep: Report):
               loc=src[0].loc(), reason='isinstance(entry, RelayError) '
               'inside a scan over the result')
     # a failing entry leads to a failure result (not to the fresh id)
+    fx = e.facts(g)
     for t in tests:
         rep.evaluations += 1
+        comp = [sc for sc in t.scopes if sc.kind == 'loop' and
+                isinstance(sc.ast, ast.comprehension)]
+        if comp:
+            # selection shape: the failing entries are picked out by a
+            # comprehension / generator; the fresh id may be returned only
+            # where the pick turned out empty
+            picked = set()
+            for s2 in g.of_kind('stmt'):
+                if isinstance(s2.ast, ast.Assign) and any(
+                        comp[0].ast in getattr(x, 'generators', [])
+                        for x in ast.walk(s2.ast.value)) and \
+                        isinstance(s2.ast.targets[0], ast.Name):
+                    picked.add(path_of(s2.ast.targets[0], s2.frame))
+            changed = True
+            while changed:
+                changed = False
+                for s2 in g.of_kind('stmt'):
+                    if not isinstance(s2.ast, ast.Assign) or \
+                            not isinstance(s2.ast.targets[0], ast.Name):
+                        continue
+                    tname = path_of(s2.ast.targets[0], s2.frame)
+                    if tname in picked:
+                        continue
+                    if any(isinstance(y, ast.Name) and
+                           path_of(y, vf) in picked
+                           for val, vf in common.values_of(
+                               g, s2.ast.value, s2.frame)
+                           for y in ast.walk(val)):
+                        picked.add(tname)
+                        changed = True
+            uuid_rets = [n for n in g.of_kind('stmt')
+                         if isinstance(n.ast, ast.Return) and
+                         'uuid' in ast.unparse(n.ast)]
+            ok = bool(uuid_rets) and all(any(
+                (p and k == sp + ' is None') or (not p and k == sp)
+                for p, k in (fx.at(r) or ()) for sp in picked)
+                for r in uuid_rets)
+            rep.check(ok, 'R2.4', where, 'a failed entry yields a failure '
+                      'result', 'the fresh message id can be returned '
+                      'although the entries picked out as RelayError were '
+                      'not found empty', loc=t.loc(),
+                      reason='id returned only under "nothing picked"')
+            continue
         tsucc = [s for l, s in t.succ if l == 'T']
         ok = False
         for s in tsucc:
@@ -445,7 +655,8 @@ def r24_kinds(e: Engine, rep: Report):
     that kind (isinstance narrowing decides which branches are feasible)."""
     from ..kinds import Kinds, KindFlow, ks, show
     ctx = e.method_ctx('slimta.queue.proxy.ProxyQueue', 'enqueue')
-    g = e.build(ctx, raises=lambda b, n, r: set())
+    g = e.build(ctx, raises=lambda b, n, r: set(),
+                inline=e.inline_same_self(), max_depth=3)
     where = ctx.func.qname
     calls = [n for n in g.nodes if n.kind == 'call' and
              e.call_name(n) in ('_attempt', 'attempt') and
@@ -495,42 +706,51 @@ def r25(e: Engine, rep: Report):
                'with a stale index', reason='updates are by identity '
                '(remove/extend) or use a fresh index')
     ctx = e.method_ctx(QUEUE, 'enqueue')
-    fn = ctx.func.node
     where = ctx.func.qname
-    var = None
-    for n in walk_own(fn):
-        if isinstance(n, ast.Assign) and isinstance(n.value, ast.Call) and \
-                ast.unparse(n.value.func) == 'self._run_policies' and \
-                isinstance(n.targets[0], ast.Name):
-            var = n.targets[0].id
+    g = e.build(ctx, raises=lambda b, n, r: set(),
+                inline=e.inline_same_self(
+                    deny=['_pool_imap', '_pool_spawn', '_pool_run',
+                          '_run_policies', '_attempt']), max_depth=3)
+    src = [n for n in g.of_kind('stmt') if isinstance(n.ast, ast.Assign) and
+           isinstance(n.ast.value, ast.Call) and
+           canon(n.ast.value.func, n.frame) == 'self._run_policies' and
+           isinstance(n.ast.targets[0], ast.Name)]
     rep.evaluations += 1
-    if var is None:
+    if len(src) != 1:
         rep.error('anchor vanished: result of _run_policies in enqueue')
         return
-    rebinds = [n for n in walk_own(fn) if isinstance(n, (
-        ast.Assign, ast.AugAssign)) and any(
-            isinstance(x, ast.Name) and x.id == var and
-            isinstance(x.ctx, ast.Store) for x in ast.walk(n))]
-    muts = [n for n in walk_own(fn) if isinstance(n, ast.Call) and
-            isinstance(n.func, ast.Attribute) and
-            ast.unparse(n.func.value) == var and n.func.attr in (
-                'pop', 'remove', 'clear', 'insert', 'append', 'extend',
-                'sort', 'reverse')]
-    writes = [n for n in walk_own(fn) if isinstance(n, ast.Call) and
-              ast.unparse(n.func).endswith('_pool_imap') and any(
-                  ast.unparse(a).endswith('store.write') for a in n.args)]
-    zips = [n for n in walk_own(fn) if isinstance(n, ast.Call) and
-            ast.unparse(n.func) == 'zip']
-    ok = len(rebinds) == 1 and not muts and writes and all(
-        any(isinstance(a, ast.Name) and a.id == var for a in w.args)
+    var = path_of(src[0].ast.targets[0], src[0].frame)
+    short = var.split('#')[0]
+
+    def mentions(x, fr):
+        return any(isinstance(y, ast.Name) and path_of(y, fr) == var
+                   for y in ast.walk(x))
+    rebinds = [n for n in g.of_kind('stmt') if n is not src[0] and
+               isinstance(n.ast, (ast.Assign, ast.AugAssign)) and any(
+                   isinstance(t, ast.Name) and isinstance(t.ctx, ast.Store)
+                   and '%s#%d' % (t.id, n.frame.id) == var
+                   for tt in (n.ast.targets if isinstance(n.ast, ast.Assign)
+                              else [n.ast.target]) for t in ast.walk(tt))]
+    muts = [n for n in g.nodes if n.kind == 'call' and
+            isinstance(n.ast.func, ast.Attribute) and
+            path_of(n.ast.func.value, n.frame) == var and
+            n.ast.func.attr in ('pop', 'remove', 'clear', 'insert', 'append',
+                                'extend', 'sort', 'reverse')]
+    writes = [n for n in g.nodes if n.kind == 'call' and
+              e.call_name(n) == '_pool_imap' and any(
+                  canon(a, n.frame) == 'self.store.write'
+                  for a in n.ast.args)]
+    zips = [n for n in g.nodes if n.kind == 'call' and
+            isinstance(n.ast.func, ast.Name) and n.ast.func.id == 'zip']
+    ok = not rebinds and not muts and writes and all(
+        any(path_of(a, w.frame) == var for a in w.ast.args)
         for w in writes) and zips and all(
-        isinstance(z.args[0], ast.Name) and z.args[0].id == var
-        for z in zips if z.args)
+        z.ast.args and path_of(z.ast.args[0], z.frame) == var for z in zips)
     rep.check(bool(ok), 'R2.5', where,
               'the list from _run_policies is what is written and paired',
               'enqueue does not hand the unmodified list `%s` returned by '
               '_run_policies to both the store writes and the pairing with '
               'the ids: an envelope is dropped or paired with the result '
-              'of another one' % var, loc=ctx.func.loc(),
+              'of another one' % short, loc=ctx.func.loc(),
               reason='single binding, no mutation, passed to _pool_imap('
               'store.write) and zip()')
